@@ -46,7 +46,7 @@ impl ProtoFmt for time::Utc {
     fn read(r: &Self::Proto) -> anyhow::Result<Self> {
         let seconds = *required(&r.seconds).context("seconds")?;
         let nanos = *required(&r.nanos).context("nanos")?;
-        Ok(time::UNIX_EPOCH + time::Duration::new(seconds, nanos))
+        Ok(time::UNIX_EPOCH + duration_from_parts(seconds, nanos)?)
     }
 
     fn build(&self) -> Self::Proto {
@@ -58,13 +58,20 @@ impl ProtoFmt for time::Utc {
     }
 }
 
+/// Equivalent of `time::Duration::new()`, which returns an error instead of panicking on overflow.
+fn duration_from_parts(seconds: i64, nanos: i32) -> anyhow::Result<time::Duration> {
+    time::Duration::seconds(seconds)
+        .checked_add(time::Duration::nanoseconds(nanos.into()))
+        .context("duration overflow")
+}
+
 impl ProtoFmt for time::Duration {
     type Proto = proto::std::Duration;
 
     fn read(r: &Self::Proto) -> anyhow::Result<Self> {
         let seconds = *required(&r.seconds).context("seconds")?;
         let nanos = *required(&r.nanos).context("nanos")?;
-        Ok(Self::new(seconds, nanos))
+        duration_from_parts(seconds, nanos)
     }
 
     fn build(&self) -> Self::Proto {
